@@ -30,6 +30,12 @@ type TupleV []Value
 
 type Opaque struct{ Why string }
 
+// UnsafeV is a value converted to unsafe.Pointer; T is the type it had before.
+type UnsafeV struct {
+	V Value
+	T types.Type
+}
+
 type StructV struct{ F []Value }
 type ArrayV struct{ E []Value }
 
